@@ -3,6 +3,7 @@ import CryoCat.Lemmas.C13_Shapes
 import CryoCat.Lemmas.C13_Algebra
 import CryoCat.Lemmas.C13_Conv
 import CryoCat.Lemmas.C13_Blur
+import CryoCat.Lemmas.C13_Gauss
 import CryoCat.Lemmas.C13_Parse
 /-! C13 — property theorems (only theorems, the small definitions their statements need, and
 non-vacuity examples; helper lemmas live in `Lemmas/C13*.lean`).
@@ -70,14 +71,14 @@ theorem shell_source_documented :
       "v2=postprocess(v2,gaussian,angles,output_name)", "returnv2"] :=
   ⟨rfl, rfl⟩
 
-/-- `get_correct_format`, complete body: integer truncation, default = half the reference size -/
+/-- `get_correct_format`, complete body: integer truncation, default = half the reference size (a `raise` is recorded by its exception type only: message texts are free) -/
 theorem format_source_documented :
     Gen.C13.body_get_correct_format = ["def:v0(v1)", "if:isinstance(v1,(tuple,list,np.ndarray))", "if:len(v1)==3", "returnnp.asarray(v1).astype(int)", "else:",
       "if:len(v1)==1", "returnnp.full((3,),v1).astype(int)", "else:",
-      "raiseValueError('Thesizehavetobeasinglenumberorhavetohavelengthof3!')", "end", "end", "else:", "if:isinstance(v1,(float,int))",
+      "raiseValueError", "end", "end", "else:", "if:isinstance(v1,(float,int,np.integer,np.floating))",
       "returnnp.full((3,),v1).astype(int)", "end", "end", "end", "if:input_valueisnotNone", "v2=v0(input_value)", "else:",
       "if:reference_sizeisnotNone", "v3=v0(reference_size)", "v2=v3//2", "else:",
-      "raiseValueError('Eitherinput_sizeorreferene_sizehavetobespecified')", "end", "end", "returnv2"] :=
+      "raiseValueError", "end", "end", "returnv2"] :=
   rfl
 
 /-- the four set operations, complete bodies: accumulator (`subtraction`: a float copy of the first mask, fix 35e97b8), operator, clip bounds; `cryomap.read` copies array inputs -/
@@ -91,11 +92,22 @@ theorem algebra_source_documented :
     Gen.C13.body_difference = ["v0=union(mask_list)", "v1=intersection(mask_list)", "v2=v0-v1", "v2=np.clip(v2,0.0,1.0)", "write_out(v2,output_name)", "returnv2"] ∧
     Gen.C13.body_cryomap_read = ["if:isinstance(input_map,str)", "def:v0(v1)", "v2='\\\\.(mrc|ali|rec|st)(\\\\.\\\\d+)?$'", "returnbool(re.search(v2,v1))", "end",
       "if:v0(input_map)", "v3=mrcfile.open(input_map).data", "else:", "if:input_map.endswith('.em')", "v3=emfile.read(input_map)[1]",
-      "else:", "raiseValueError('Theinputmapfilename',input_map,'isneitheremormrcfile!')", "end", "end", "if:transpose",
+      "else:", "raiseValueError", "end", "end", "if:transpose",
       "v3=v3.transpose(2,1,0)", "end", "else:", "if:isinstance(input_map,np.ndarray)", "v3=np.array(input_map)", "else:",
-      "raiseValueError(f'Inputmapmustbepathtovalidfileornparray')", "end", "end", "v3=np.array(v3,copy=True)", "if:data_typeisnotNone",
+      "raiseValueError", "end", "end", "v3=np.array(v3,copy=True)", "if:data_typeisnotNone",
       "v3=v3.astype(data_type)", "end", "returnv3"] :=
   ⟨rfl, rfl, rfl, rfl, rfl⟩
+
+/-- `write_out` (reached by every constructor and algebra call): nothing happens for `output_name=None`; `cryomap.rotate` (called by `cryomask.rotate` for non-zero angles only, i.e. outside the property's quantifier; anchored so that it cannot be re-bound or wrapped unnoticed) -/
+theorem writeout_source_documented :
+    Gen.C13.body_write_out = ["if:output_nameisnotNone", "cryomap.write(input_mask,output_name,data_type=np.single)", "end"] ∧
+    Gen.C13.body_cryomap_rotate = ["input_map=read(input_map)", "v0=np.eye(4)", "v1=np.asarray(input_map.shape)//2", "v0[:3,-1]=v1", "v2=np.eye(4)",
+      "if:rotationisnotNone", "if:transpose_rotation", "v2[0:3,0:3]=rotation.as_matrix().T", "else:", "v2[0:3,0:3]=rotation.as_matrix()", "end", "else:",
+      "if:rotation_anglesisnotNone", "v3=srot.from_euler(coord_space,rotation_angles,degrees=degrees)", "v2[0:3,0:3]=v3.as_matrix().T", "else:",
+      "raiseValueError", "end", "end", "v4=v0@v2@np.linalg.inv(v0)", "v5=np.empty(input_map.shape)",
+      "affine_transform(input=input_map,output=v5,matrix=v4,order=spline_order)", "if:output_nameisnotNone", "write(v5,output_name,data_type=np.single)",
+      "end", "returnv5"] :=
+  ⟨rfl, rfl⟩
 
 /-- `add_gaussian` / `rotate` / `postprocess`, complete bodies: `sigma == 0` returns the mask itself, otherwise `skimage.filters.gaussian(mask, sigma=sigma)` with the library defaults (mode nearest, truncate 4); no rotation for zero angles -/
 theorem gaussian_source_documented :
@@ -115,7 +127,7 @@ theorem generator_source_documented :
       "v2=ellipsoid_shell_mask(mask_size=mask_size,shell_thickness=v1[3],radii=v1[0:3])", "end", "end", "end", "end", "end", "returnv2"] ∧
     Gen.C13.body_parse_shape_string = ["v0={'sphere':'^sphere_r(\\\\d+)$','cylinder':'^cylinder_r(\\\\d+)_h(\\\\d+)$','s_shell':'^s_shell_r(\\\\d+)_s(\\\\d+)$','ellipsoid':'^ellipsoid_rx(\\\\d+)_ry(\\\\d+)_rz(\\\\d+)$','e_shell':'^e_shell_rx(\\\\d+)_ry(\\\\d+)_rz(\\\\d+)_s(\\\\d+)$'}",
       "for:(v1,v2):v0.items()", "v3=re.match(v2,shape_string)", "if:v3", "v4=[int(v5)forv5inv3.groups()]", "return(v1,v4)", "end", "end",
-      "raiseValueError(f\"String'{shape_string}'doesnotmatchanyknownshapepattern.\")"] ∧
+      "raiseValueError"] ∧
     Gen.C13.parsePatterns = ["sphere", "^sphere_r(\\d+)$", "cylinder", "^cylinder_r(\\d+)_h(\\d+)$", "s_shell", "^s_shell_r(\\d+)_s(\\d+)$", "ellipsoid",
       "^ellipsoid_rx(\\d+)_ry(\\d+)_rz(\\d+)$", "e_shell", "^e_shell_rx(\\d+)_ry(\\d+)_rz(\\d+)_s(\\d+)$"] :=
   ⟨rfl, rfl, rfl⟩
@@ -139,8 +151,11 @@ theorem defaults_documented :
     Gen.C13.sig_add_gaussian = ["input_mask", "sigma"] ∧
     Gen.C13.sig_rotate = ["input_mask", "angles"] ∧
     Gen.C13.sig_postprocess = ["input_mask", "gaussian", "angles", "output_name"] ∧
-    Gen.C13.sig_cryomap_read = ["input_map", "transpose=True", "data_type=None"] :=
-  ⟨rfl, rfl, rfl, rfl, rfl, rfl, rfl, rfl, rfl, rfl, rfl, rfl, rfl, rfl, rfl, rfl, rfl⟩
+    Gen.C13.sig_cryomap_read = ["input_map", "transpose=True", "data_type=None"] ∧
+    Gen.C13.sig_write_out = ["input_mask", "output_name"] ∧
+    Gen.C13.sig_cryomap_rotate = ["input_map", "rotation=None", "rotation_angles=None", "coord_space='zxz'", "transpose_rotation=False", "degrees=True",
+      "spline_order=3", "output_name=None"] :=
+  ⟨rfl, rfl, rfl, rfl, rfl, rfl, rfl, rfl, rfl, rfl, rfl, rfl, rfl, rfl, rfl, rfl, rfl, rfl, rfl⟩
 
 /-- the literal pieces of the five patterns `^label(\\d+)label(\\d+)…$`, in the order the source tries them -/
 theorem labels_documented :
@@ -274,7 +289,8 @@ theorem ellipsoid_exact_even (nx ny nz : Nat) (hx : nx % 2 = 0) (hy : ny % 2 = 0
   ellipsoidIn_even nx ny nz hx hy hz cx cy cz rx ry rz hrx hry hrz i j k
 
 /-- the mask returned by `ellipsoid_mask` (any centre, radii given, hard edge): the drawn radii are the
-integer parts of the requested ones -/
+integer parts of the requested ones — for integer radii this is the statement's inequality, for non-integer radii it is NOT
+(proposed open finding C13-K3, `ellipsoid_fractional_radii_truncated`) -/
 theorem ellipsoid_mask_exact (q : Req) (hk : q.kind = .ellipsoid) (hx : q.nx % 2 = 0) (hy : q.ny % 2 = 0) (hz : q.nz % 2 = 0)
     (a b c : Rat) (hr : q.radii = some (a, b, c)) (hg : q.gauss = 0)
     (ha : trunc a ≠ 0) (hb : trunc b ≠ 0) (hc : trunc c ≠ 0) :
@@ -340,6 +356,17 @@ theorem ellipsoid_shell_exact (q : Req) (hk : q.kind = .eshell) (a b c : Rat) (h
               (trunc ((trunc a : Rat) - q.thick / 2)) (trunc ((trunc b : Rat) - q.thick / 2)) (trunc ((trunc c : Rat) - q.thick / 2)) i j k) := by
   rcases hcc : q.centre with ⟨cx, cy, cz⟩
   simp only [voxel, hcc, hk, Req.radiiInt, hr, ellRadii, preprocess_hard, trunc_intCast]
+
+/-- **C13-K3 (proposed open finding), witness about the model.**  Non-integer ellipsoid radii are cut to their integer part
+(`get_correct_format` ends in `.astype(int)`, modelled by `trunc`): `ellipsoid_mask([12,12,12], radii=[2.5,2.5,2.5])` draws radii
+`(2,2,2)`, so voxel `(8,7,7)` (offset `(2,1,1)` from the centre) is left out although `(2/2.5)² + (1/2.5)² + (1/2.5)² = 0.96 ≤ 1`;
+`ellipsoid_shell_mask` with radius 5 and the odd thickness 3 draws the radii `int(6.5) = 6` and `int(3.5) = 3`. -/
+theorem ellipsoid_fractional_radii_truncated :
+    ellRadii ((5 / 2 : Rat), (5 / 2 : Rat), (5 / 2 : Rat)) 0 true = (2, 2, 2) ∧
+    ellipsoidIn 12 12 12 6 6 6 2 2 2 8 7 7 = false ∧
+    ((((8 : Rat) - 6) / (5 / 2)) ^ 2 + (((7 : Rat) - 6) / (5 / 2)) ^ 2 + (((7 : Rat) - 6) / (5 / 2)) ^ 2 ≤ 1) ∧
+    ellRadii ((5 : Rat) + 3 / 2, (5 : Rat) + 3 / 2, (5 : Rat) + 3 / 2) 0 true = (6, 6, 6) ∧
+    ellRadii ((5 : Rat) - 3 / 2, (5 : Rat) - 3 / 2, (5 : Rat) - 3 / 2) 0 true = (3, 3, 3) := by decide +kernel
 
 /-! ### the name-based generator builds the same shapes -/
 
@@ -797,7 +824,7 @@ theorem outwards_sphere_contains_core_neighbourhood (cx cy cz : Int) (r g : Rat)
 /-- the constant of the statement: "leave the requested core at 1 within 1e-3" -/
 theorem coreTol_documented : coreTol = 1 / 1000 := by decide +kernel
 
-/-- kernel radius `int(4σ + 0.5)` for the widths of the quantifier's grid -/
+/-- kernel radius `int(4σ + 0.5)` at the half-integer widths 0.5 … 3 (examples; `kernelRadius_bounds` in `Lemmas/C13_Gauss.lean` gives `(2R−1)/8 ≤ σ` for every width) -/
 theorem kernel_radius_examples :
     kernelRadius (1 / 2) = 2 ∧ kernelRadius 1 = 4 ∧ kernelRadius (3 / 2) = 6 ∧ kernelRadius 2 = 8 ∧
     kernelRadius (5 / 2) = 10 ∧ kernelRadius 3 = 12 := by decide +kernel
@@ -828,8 +855,8 @@ theorem blur_core_deficit (nx ny nz R : Nat) (w1 : Int → α) (x : Int → Int 
   rw [← hsum]
   exact list_deficit (cube R) (w3 w1) (seen nx ny nz x i j k) bad (fun q _ => w3_nonneg w1 hw q) (fun q _ => hx _ _ _) hgood
 
-/-- the 1-D weights `gaussian_filter1d` uses, `e t / Σ e` for any positive `e` (here `exp(-t²/2σ²)`), are non-negative with
-total 1 … -/
+/-- 1-D weights of the form `e t / Σ e` with `e ≥ 0` and `Σ e > 0` (what `gaussian_filter1d` builds from `exp(-t²/2σ²)`) are
+non-negative with total 1 … -/
 theorem normalised_weights (R : Nat) (e : Int → α) (he : ∀ t, 0 ≤ e t) (hpos : 0 < ((axis R).map e).sum) :
     (∀ t, 0 ≤ e t / ((axis R).map e).sum) ∧ ((axis R).map fun t => e t / ((axis R).map e).sum).sum = 1 := by
   refine ⟨fun t => div_nonneg (he t) (le_of_lt hpos), ?_⟩
@@ -843,9 +870,8 @@ theorem kernel_total_weight (R : Nat) (w1 : Int → α) (h : ((axis R).map w1).s
 
 end Blur
 
-/-- offsets farther than `5σ` from the centre of the kernel -/
-def farOffset (g : Rat) (o : Int × Int × Int) : Bool :=
-  decide ((g * 5) * (g * 5) < ((o.1 * o.1 + o.2.1 * o.2.1 + o.2.2 * o.2.2 : Int) : Rat))
+/- `farOffset g o` (defined in `Lemmas/C13_Gauss.lean`): the offset `o` is farther than `5σ` from the centre of the kernel,
+`(5g)² < o₁² + o₂² + o₃²`. -/
 
 section Core
 variable {α : Type} [Field α] [LinearOrder α] [IsStrictOrderedRing α]
@@ -855,7 +881,9 @@ theorem b2i_cast_mem (b : Bool) : (0 : α) ≤ ((b2i b : Int) : α) ∧ ((b2i b 
 
 /-- **blurred outwards, sphere: the requested core stays at 1 within the kernel's tail beyond 5σ** — `soft_core_deficit`
 instantiated with the model's own pre-blur mask (`voxel q`, radius `⌈r + 5σ⌉`) and the kernel model `blurAt`
-(mode nearest).  With the probed fact "weight beyond 5σ ≤ 1e-3" (`tol = coreTol`) this is the statement's clause. -/
+(mode nearest), for ANY kernel with non-negative weights of total 1 (`hw`, `hsum`) whose weight beyond `5σ` is at most `tol` (`htail`).
+For the model's Gaussian kernel and every width `0 < σ ≤ 3` the three hypotheses are discharged in `soft_sphere_core_gaussian`
+(`tol = 1e-3`): that instance is the statement's clause. -/
 theorem soft_sphere_core_within_tol (q : Req) (hk : q.kind = .sphere) (hc : CentreInBox q) (r : Rat) (hr : q.radius = some r)
     (hr0 : 0 ≤ r) (hg : 0 < q.gauss) (ho : q.outwards = true)
     (R : Nat) (w1 : Int → α) (hw : ∀ t, 0 ≤ w1 t) (hsum : ((cube R).map (w3 w1)).sum = 1)
@@ -951,7 +979,8 @@ theorem outwards_cylinder_contains_core_neighbourhood (nz : Nat) (cx cy cz : Int
   · rw [hH]; omega
 
 /-- **blurred outwards, cylinder: the requested core stays at 1 within the kernel's tail beyond 5σ** (the analogue of
-`soft_sphere_core_within_tol`; the core is the hard cylinder of radius `r` and half height `⌊h/2⌋`, clipped to the box) -/
+`soft_sphere_core_within_tol`, for any kernel meeting `hw`, `hsum`, `htail`; the core is the hard cylinder of radius `r` and half height
+`⌊h/2⌋`, clipped to the box; instance for the model's Gaussian kernel: `soft_cylinder_core_gaussian`) -/
 theorem soft_cylinder_core_within_tol {α : Type} [Field α] [LinearOrder α] [IsStrictOrderedRing α]
     (q : Req) (hk : q.kind = .cylinder)
     (hc : 0 ≤ q.centre.1 ∧ q.centre.1 < q.nx ∧ 0 ≤ q.centre.2.1 ∧ q.centre.2.1 < q.ny)
@@ -987,15 +1016,118 @@ theorem soft_cylinder_core_within_tol {α : Type} [Field α] [LinearOrder α] [I
     simp only [seen, e1, e2, e3, hR, hH, cylVox_inBox _ _ _ _ _ _ _ _ h1 h3, this]
     simp [b2i]
 
-/-- **ellipsoid, blurred outwards: the same inclusion is FALSE** (open finding C13-K2).  Radii `(20,1,1)`, `σ = 1`: the code
-draws radii `(25,6,6)`; voxel `(44,8,8)` of a `48×16×16` box (centre `(24,8,8)`) belongs to the requested core, voxel `(44,11,10)`
-lies within `5σ` of it (offset `(0,3,2)`, length `√13`), and is outside the enlarged ellipsoid: `(20/25)² + (3/6)² + (2/6)² > 1`.
-Enlarging every radius by `5σ` does not cover the `5σ`-neighbourhood of an elongated core. -/
+/-! #### the model's Gaussian kernel: the hypotheses `hw`, `hsum`, `htail` discharged for every width `0 < σ ≤ 3`
+
+`realW σ R t = gaussW Real.exp (↑) σ R t` is the weight `exp(-0.5/σ²·t²) / Σ_{|u| ≤ R} exp(-0.5/σ²·u²)` of `Model/C13.lean` — the
+definition the driver evaluates with `Float.exp` (`Drv.C13.gaussTable`) and compares with `skimage.filters.gaussian` — read
+with the real exponential; `R = kernelRadius σ = int(4σ + 0.5)`. -/
+
+/-- the weights the theorems below are about are the model's `gaussW`, with `Real.exp` for the exponential -/
+theorem realW_is_model (g : ℝ) (R : ℕ) (t : ℤ) : realW g R t = gaussW Real.exp (fun t : ℤ => (t : ℝ)) g R t := rfl
+
+/-- the Gaussian kernel of the model has non-negative weights of total 1 (1-D and over `[-R,R]³`), for every width and radius -/
+theorem gaussian_kernel_weights (g : ℝ) (R : ℕ) :
+    (∀ t, 0 ≤ realW g R t) ∧ ((axis R).map (realW g R)).sum = 1 ∧ ((cube R).map (w3 (realW g R))).sum = 1 :=
+  ⟨realW_nonneg g R, realW_axis_sum g R, realW_cube_sum g R⟩
+
+/-- **kernel tail.**  For every width `0 < σ ≤ 3` (the quantifier's range) the kernel of radius `int(4σ + 0.5)` puts at most
+`1e-3` (`coreTol`) of its weight on offsets farther than `5σ` from its centre -/
+theorem gaussian_kernel_tail (g : ℚ) (hg : 0 < g) (hg3 : g ≤ 3) :
+    (((cube (kernelRadius g)).filter (farOffset g)).map (w3 (realW (g : ℝ) (kernelRadius g)))).sum ≤ ((coreTol : ℚ) : ℝ) := by
+  rw [coreTol_documented]; push_cast
+  exact gauss_tail_le g hg hg3
+
+/-- **soft masks stay within [0,1]** under the model's Gaussian kernel: any width, any [0,1]-valued mask, every voxel -/
+theorem soft_gaussian_range (nx ny nz : Nat) (g : ℝ) (R : ℕ) (x : Int → Int → Int → ℝ) (hx : ∀ a b c, 0 ≤ x a b c ∧ x a b c ≤ 1)
+    (i j k : Int) : 0 ≤ blurAt nx ny nz R (realW g R) x i j k ∧ blurAt nx ny nz R (realW g R) x i j k ≤ 1 :=
+  blur_range nx ny nz R (realW g R) x (realW_nonneg g R) (realW_cube_sum g R) hx i j k
+
+/-- **blurred outwards, sphere, no hypothesis left about the kernel**: for every box, centre in the box, radius `r ≥ 0` and width
+`0 < σ ≤ 3`, the model's pre-blur sphere (radius `⌈r + 5σ⌉`) filtered with the model's Gaussian kernel (radius `int(4σ + 0.5)`,
+nearest-voxel boundary) is within `1e-3` of 1 at every voxel of the requested core `distance ≤ r` -/
+theorem soft_sphere_core_gaussian (q : Req) (hk : q.kind = .sphere) (hc : CentreInBox q) (r : Rat) (hr : q.radius = some r)
+    (hr0 : 0 ≤ r) (hg : 0 < q.gauss) (hg3 : q.gauss ≤ 3) (ho : q.outwards = true) :
+    ∃ f, voxel q = some f ∧ ∀ i j k : Nat, i < q.nx → j < q.ny → k < q.nz →
+      (dist2 q.centre i j k : Rat) ≤ r ^ 2 →
+      1 - blurAt q.nx q.ny q.nz (kernelRadius q.gauss) (realW (q.gauss : ℝ) (kernelRadius q.gauss))
+            (fun a b c => ((f a b c : Int) : ℝ)) i j k ≤ 1 / 1000 :=
+  soft_sphere_core_within_tol q hk hc r hr hr0 hg ho (kernelRadius q.gauss) (realW (q.gauss : ℝ) (kernelRadius q.gauss))
+    (realW_nonneg _ _) (realW_cube_sum _ _) (1 / 1000) (gauss_tail_le q.gauss hg hg3)
+
+/-- **blurred outwards, cylinder, no hypothesis left about the kernel** (core = the hard cylinder of radius `r` and half height
+`⌊h/2⌋`, clipped to the box) -/
+theorem soft_cylinder_core_gaussian (q : Req) (hk : q.kind = .cylinder)
+    (hc : 0 ≤ q.centre.1 ∧ q.centre.1 < q.nx ∧ 0 ≤ q.centre.2.1 ∧ q.centre.2.1 < q.ny)
+    (r : Rat) (hr : q.radius = some r) (h : Int) (hh : q.height = some h)
+    (hr0 : 0 ≤ r) (hg : 0 < q.gauss) (hg3 : q.gauss ≤ 3) (ho : q.outwards = true) :
+    ∃ f, voxel q = some f ∧ ∀ i j k : Nat, i < q.nx → j < q.ny → k < q.nz →
+      cylIn q.nz q.centre.1 q.centre.2.1 q.centre.2.2 r (h / 2) i j k = true →
+      1 - blurAt q.nx q.ny q.nz (kernelRadius q.gauss) (realW (q.gauss : ℝ) (kernelRadius q.gauss))
+            (fun a b c => ((f a b c : Int) : ℝ)) i j k ≤ 1 / 1000 :=
+  soft_cylinder_core_within_tol q hk hc r hr h hh hr0 hg ho (kernelRadius q.gauss) (realW (q.gauss : ℝ) (kernelRadius q.gauss))
+    (realW_nonneg _ _) (realW_cube_sum _ _) (1 / 1000) (gauss_tail_le q.gauss hg hg3)
+
+/-- **ellipsoid, blurred outwards: the inclusion used for spheres and cylinders is REFUTED** (the geometric half of the open finding
+C13-K2; the quantitative half — a core voxel that loses more than `1e-3` — is `ellipsoid_outwards_core_deficit` below).  Radii
+`(20,1,1)`, `σ = 1`: the code draws radii `(25,6,6)`; voxel `(44,8,8)` of a `48×16×16` box (centre `(24,8,8)`) belongs to the requested
+core, voxel `(44,11,10)` lies within `5σ` of it (offset `(0,3,2)`, length `√13`), and is outside the enlarged ellipsoid:
+`(20/25)² + (3/6)² + (2/6)² > 1`.  Enlarging every radius by `5σ` does not cover the `5σ`-neighbourhood of an elongated core. -/
 theorem ellipsoid_outwards_not_dilation :
     ellipsoidIn 48 16 16 24 8 8 20 1 1 44 8 8 = true ∧
     (((0 * 0 + 3 * 3 + 2 * 2 : Int)) : Rat) ≤ ((1 : Rat) * 5) * ((1 : Rat) * 5) ∧
     ellRadii ((20 : Rat), (1 : Rat), (1 : Rat)) 1 true = (25, 6, 6) ∧
     ellipsoidIn 48 16 16 24 8 8 25 6 6 (44 + 0) (8 + 3) (8 + 2) = false := by decide +kernel
+
+/-- the witness call of C13-K2: `ellipsoid_mask([48,16,16], radii=[20,1,1], gaussian=1.0)` (default centre `(24,8,8)`, blurred outwards) -/
+def k2Req : Req := { kind := .ellipsoid, nx := 48, ny := 16, nz := 16, radii := some (20, 1, 1), gauss := 1, outwards := true }
+
+/-- kernel offsets of squared length `≤ 14` that, from the core voxel `(44,8,8)` (nearest-voxel boundary), read a voxel outside the
+enlarged ellipsoid of radii `(25,6,6)` -/
+def k2Bad (o : Int × Int × Int) : Bool :=
+  decide (o.1 * o.1 + o.2.1 * o.2.1 + o.2.2 * o.2.2 ≤ 14) &&
+    !(ellipsoidIn 48 16 16 24 8 8 25 6 6 (clampIdx 48 (44 + o.1)) (clampIdx 16 (8 + o.2.1)) (clampIdx 16 (8 + o.2.2)))
+
+/-- **C13-K2, quantitative witness** (about the model: its pre-blur mask and its Gaussian kernel with the real exponential).  For the
+call `k2Req` the model draws the ellipsoid of radii `(25,6,6)`; voxel `(44,8,8)` belongs to the requested core (radii `(20,1,1)`), and its
+blurred value falls short of 1 by MORE than `1e-3`: 28 kernel offsets of squared length 13 or 14 read a voxel outside the enlarged
+ellipsoid, each carries at least `exp(-7)/S³`, and `28·exp(-7)/S³ > 1e-3` (`S < 2.81`, `exp 7 < 1097`).  So the clause "leave the
+requested core at 1 within 1e-3" fails for this input, whatever the floating-point details (measured on the real code: `2.9e-3`). -/
+theorem ellipsoid_outwards_core_deficit :
+    ∃ f, voxel k2Req = some f ∧
+      ellipsoidIn 48 16 16 24 8 8 20 1 1 44 8 8 = true ∧
+      (1 : ℝ) / 1000 < 1 - blurAt 48 16 16 (kernelRadius 1) (realW 1 (kernelRadius 1)) (fun a b c => ((f a b c : Int) : ℝ)) 44 8 8 := by
+  have hR : kernelRadius 1 = 4 := by decide +kernel
+  have hcount : ((cube 4).filter k2Bad).length = 28 := by decide +kernel
+  have hrad : ellRadii ((20 : Rat), (1 : Rat), (1 : Rat)) 1 true = (25, 6, 6) := by decide +kernel
+  refine ⟨fun i j k => b2i (ellipsoidIn 48 16 16 24 8 8 25 6 6 i j k), ?_, by decide +kernel, ?_⟩
+  · have hri : k2Req.radiiInt = (20, 1, 1) := by decide +kernel
+    have hce : k2Req.centre = (24, 8, 8) := by decide +kernel
+    simp only [voxel, hce, hri]
+    have hrad' : ellRadii (((20 : Int) : Rat), ((1 : Int) : Rat), ((1 : Int) : Rat)) k2Req.gauss k2Req.outwards = (25, 6, 6) := by
+      simpa [k2Req] using hrad
+    simp only [k2Req] at hrad' ⊢
+    simp only [hrad']
+  · rw [hR]
+    have hge := blur_deficit_ge 48 16 16 4 (realW 1 4)
+      (fun a b c => ((b2i (ellipsoidIn 48 16 16 24 8 8 25 6 6 a b c) : Int) : ℝ)) (realW_nonneg 1 4) (realW_cube_sum 1 4)
+      (fun a b c => b2i_cast_mem _) k2Bad 44 8 8 (by
+        intro o _ ho
+        simp only [k2Bad, Bool.and_eq_true, Bool.not_eq_true', decide_eq_true_iff] at ho
+        simp only [seen, ho.2]
+        simp [b2i])
+    have hlow := sum_filter_ge_length (cube 4) k2Bad (w3 (realW 1 4)) (Real.exp (-7) / realS 1 4 ^ 3) (by
+      intro o _ ho
+      simp only [k2Bad, Bool.and_eq_true, decide_eq_true_iff] at ho
+      rw [w3_realW]
+      apply div_le_div_of_nonneg_right _ (le_of_lt (pow_pos (realS_pos 1 4) 3))
+      apply Real.exp_le_exp.mpr
+      have h14 : ((o.1 * o.1 + o.2.1 * o.2.1 + o.2.2 * o.2.2 : Int) : ℝ) ≤ 14 := by exact_mod_cast ho.1
+      push_cast at h14
+      linarith)
+    rw [hcount] at hlow
+    have hnum := weight_28_offsets_gt
+    push_cast at hlow
+    linarith
 
 /-! ### non-vacuity: concrete inputs meeting the hypotheses -/
 
